@@ -187,9 +187,10 @@ class Report:
             'wall_s': round(wall, 3),
             'violations': len(new_violations),
         }
-        (VERIF / 'evidence').mkdir(exist_ok=True)
+        evdir = Path(os.environ.get('FJV_EVIDENCE_DIR') or (VERIF / 'evidence'))      # seeded-change runs write their evidence elsewhere
+        evdir.mkdir(exist_ok=True, parents=True)
         name = f'{self.prop}.json' if not getattr(self, 'partial', False) else f'{self.prop}.partial.json'     # --only runs keep the full evidence
-        (VERIF / 'evidence' / name).write_text(json.dumps(ev, indent=1, default=str) + '\n')
+        (evdir / name).write_text(json.dumps(ev, indent=1, default=str) + '\n')
         print(f'[{self.prop}/{self.tier}] configs={self.configs} paths={self.paths} obligations={self.discharged}/'
               f'{self.obligations} queries={self.queries} solver={self.solver_s:.1f}s wall={wall:.1f}s '
               f'known={len(self.known_hits)} violations={len(new_violations)} inconclusive={len(self.inconclusive)}')
